@@ -1,5 +1,40 @@
+//! C32-C35: transaction identifiers, signature authorisation, validation limits and subintent
+//! structure. Oracles are written from the property texts (reference hash composition, harness
+//! knowledge of the true key set, an independent limit predicate, an independent graph check).
+mod c35;
+mod gen;
+
+fn probe() -> i32 {
+    use radix_transactions::prelude::*;
+    let mut rng = rv_common::Rng::new(1);
+    let notary = gen::KeyId::random(&mut rng);
+    let intent = gen::rand_intent_v1(&mut rng, notary, 6);
+    let signers = gen::distinct_keys(&mut rng, 3);
+    let tx = gen::build_v1(intent, &signers, notary);
+    let v = gen::validator_latest();
+    let t0 = std::time::Instant::now();
+    let r = tx.prepare_and_validate(&v);
+    println!("v1: {:?} in {:?}", r.as_ref().map(|v| v.signer_keys.len()).map_err(|e| format!("{e:?}")), t0.elapsed());
+    for n in [0usize, 1, 3, 6] {
+        let ti = gen::rand_tx_intent_v2(&mut rng, notary, n, 3, 5);
+        let t0 = std::time::Instant::now();
+        let tx2 = gen::build_v2(ti, &signers, &[signers.clone()], notary);
+        let t1 = t0.elapsed();
+        let r = tx2.prepare_and_validate(&v);
+        println!("v2 n={n}: {:?} build {:?} total {:?} len {}", r.as_ref().map(|v| v.total_signature_validations).map_err(|e| format!("{e:?}")), t1, t0.elapsed(), tx2.to_raw().unwrap().len());
+    }
+    0
+}
+
 fn main() {
     let args = rv_common::parse_args();
-    eprintln!("no check named {}", args.prop);
-    std::process::exit(2);
+    let code = match args.prop.as_str() {
+        "probe" => probe(),
+        "C35" => c35::run(&args),
+        other => {
+            eprintln!("rv-tx: no check named {other}");
+            2
+        }
+    };
+    std::process::exit(code);
 }
